@@ -2,9 +2,12 @@
 Driver glue for the connection life-cycle scenarios (`life run <cond> <cause> [<order>]`).
 The model stream is computed from `Model/Lifecycle.lean`: the scenario's buffer condition is a
 state of the model, the cause an environment event (or bytes on the wire), and the outcome is what
-a fair round-robin schedule reaches.  Where the run stops in a state the property exempts
-(`HeldByThird` / `HeldBySelf`) the driver prints the token the harness prints and lets the
-environment end the connection that holds the subject up — as the harness does.
+a fair round-robin schedule reaches.  Where the run stops in the state the property exempts
+(`HeldByThird`) the driver prints the token the harness prints and lets the environment end the
+connection that holds the subject up — as the harness does.  `HeldBySelf` is no exemption (since
+b77088f): the model reaches it only where the cause of the end cannot be noticed at all (`selffull
+keepalive`: the receiver waits for ring space, no read is pending, the deadline is not armed —
+finding F8); the driver prints `held-up-by-self` there and makes the client go away, as the harness does.
 -/
 import Mqtt.Model.Lifecycle
 import Mqtt.Spec.Lifecycle
@@ -46,6 +49,12 @@ def condState (cond order : String) : Option St :=
                                wire := 11 * 1008, outR := { buf := 16128 }, peerReads := false,
                                wmu := some .proc },
            recv := .space, proc := .ownWait 1008 [], send := .write 8192, ks := [.idle] }
+  | "selfout" =>
+    -- 16 packets answered into the own outgoing ring, the processor parked with the answer to the 17th;
+    -- the incoming ring holds that packet only: the receiver is inside a socket read
+    some { sh := { baseSh with inR := { buf := 1008 }, stream := [floodPkt (.own 1008)],
+                               outR := { buf := 16128 }, peerReads := false, wmu := some .proc },
+           recv := .read, proc := .ownWait 1008 [], send := .write 8192, ks := [.idle] }
   | "cross" =>
     some { sh := { baseSh with inR := { buf := 9072 }, stream := List.replicate 20 (floodPkt .foreign),
                                wire := 11 * 1008, extBlocked := third, outR := { buf := 16128 },
